@@ -108,6 +108,11 @@ def b_equiv(ctx):
                 ctx.count(f'analyzer-raises:{an}:{type(e).__name__}')
                 continue
             ctx.case(True, key=(name, an))
+
+            def dv(*fits):
+                # a fit whose scatter TS exceeds 100 (the ratio of the 90 % to the 10 % endurance limit: physical values are below 10) or is not finite is a diverged optimisation: tagged, so that the recorded divergence finding
+                # cannot hide a failure of a converged fit
+                return ':divergent-fit' if any((not np.isfinite(float(f['TS']))) or float(f['TS']) > 100.0 for f in fits) else ''
             for c in (0.5, 2.0, 1000.0, 1e-4, 1e-6):
                 d2 = df.copy()
                 d2['load'] = d2['load'] * c
@@ -117,7 +122,7 @@ def b_equiv(ctx):
                 if not _close(float(got['SD']), c * float(ref['SD']), tol):
                     bad.append('SD')
                 if bad:
-                    ctx.fail(f'C18:load-scale:{an}:{name}', f'{an} on {name}: load scale {c}: {bad} not equivariant: {dict(got[["SD", "k_1", "ND", "TN", "TS"]])} vs {dict(ref[["SD", "k_1", "ND", "TN", "TS"]])}', {'dataset': name, 'analyzer': an, 'c': c})
+                    ctx.fail(f'C18:load-scale:{an}{dv(ref, got)}:{name}', f'{an} on {name}: load scale {c}: {bad} not equivariant: {dict(got[["SD", "k_1", "ND", "TN", "TS"]])} vs {dict(ref[["SD", "k_1", "ND", "TN", "TS"]])}', {'dataset': name, 'analyzer': an, 'c': c})
             for c in (0.1, 10.0):
                 d2 = df.copy()
                 d2['cycles'] = d2['cycles'] * c
@@ -127,7 +132,7 @@ def b_equiv(ctx):
                 if not _close(float(got['ND']), c * float(ref['ND']), tol):
                     bad.append('ND')
                 if bad:
-                    ctx.fail(f'C18:cycle-scale:{an}:{name}', f'{an} on {name}: cycle scale {c}: {bad} not equivariant', {'dataset': name, 'analyzer': an, 'c': c})
+                    ctx.fail(f'C18:cycle-scale:{an}{dv(ref, got)}:{name}', f'{an} on {name}: cycle scale {c}: {bad} not equivariant', {'dataset': name, 'analyzer': an, 'c': c})
             rng = np.random.default_rng(ctx.seed + 99)
             for _ in range(3):
                 d2 = df.iloc[rng.permutation(len(df))].reset_index(drop=True)
@@ -135,7 +140,7 @@ def b_equiv(ctx):
                 ctx.case(True, key=(name, an, 'perm', _))
                 bad = [k for k in ('k_1', 'TN', 'TS', 'SD', 'ND') if not _close(float(got[k]), float(ref[k]), tol if an.startswith('MaxLike') else 1e-9)]
                 if bad:
-                    ctx.fail(f'C18:permutation:{an}:{name}', f'{an} on {name}: row permutation changes {bad}', {'dataset': name, 'analyzer': an})
+                    ctx.fail(f'C18:permutation:{an}{dv(ref, got)}:{name}', f'{an} on {name}: row permutation changes {bad}', {'dataset': name, 'analyzer': an})
         if not ctx.mine():
             continue
         # zones and likelihood
